@@ -250,5 +250,43 @@ PROPS["C12"] = dict(
                "digits of e, exp(a+b), verified ln 10 literal, negative controls). Low volume: an enclosure costs 0.1-2 s.",
 )
 
+def attr_c04(ev, names):
+    if fam(ev, "call"):
+        return True
+    if fam(ev, "t"):
+        return any_in(names, {"panic", "parse-wf"})
+    if fam(ev, "bh") or fam(ev, "nd"):
+        return "panic" in names
+    return False
+
+
+PROPS["C04"] = dict(
+    mc=[("AlgLoops", None), ("AlgLoops", "AlgLoops_pinned", "expect-violation")],
+    drivers=["total", "parse", "numdigits", "bigint"],
+    attr=attr_c04,
+    rule="every exported entry point (driver table; coverage against `go doc` reported) is called under recover() and a "
+         "watchdog on well-formed receivers/arguments (S, L, X incl. +-100000 exponents, specials with stale fields, heap "
+         "coefficients, precision 0, trap sets); a panic or a timeout is an event no spec action admits; every parsed value "
+         "must be well formed; BigInt methods may panic only where math/big does. AlgLoops model-checks termination of the "
+         "iteration loops (liveness) and shows the pinned loop's lasso as a negative control",
+    technique="TLA+ liveness model of the iteration loops (TLC) + trace validation of call/return events recorded under a watchdog",
+)
+PROPS["C16"]["mc"] = [("MC_BigNat", None), ("MC_BigInt", None), ("MC_BigInt", "MC_BigInt_buggy", "expect-violation")]
+
+PROPS["C18"] = dict(
+    mc=[("Conc", None), ("Conc", "Conc_viewwrite", "expect-violation")],
+    race=True,
+    drivers=["conc"],
+    attr=lambda ev, names: ev.get("k") in ("conc", "concsnap", "race") or (fam(ev, "a") and any_in(names, {"panic"})),
+    rule="8 goroutines execute the same 160 cases per round (every operation family, inline and heap-backed shared operands, "
+         "shared Context values) with own destinations, under the Go race detector; every outcome must equal the outcome of "
+         "the call run alone, shared operands / Contexts / package tables must be unchanged, and any race report is a violation. "
+         "Conc.tla model-checks all interleavings of the borrow/read/write steps (3 processes) and shows the view-write defect "
+         "as a negative control",
+    level_note="Trusted: TLC, Go's race detector (happens-before based: sees only executed paths), the harness. The spec "
+               "contributes the interleaving argument and the sequential oracle; data-race freedom of the implementation is observed.",
+    technique="TLA+ interleaving model (TLC) + trace validation of concurrent executions recorded under the Go race detector",
+)
+
 HOOK_COMMITS = ["9935482", "75960a2"]
 NOT_YET = {}
